@@ -16,7 +16,8 @@ RULE = ("vectors: 10 element kinds x lengths {0,1,2,L-1,L,L+1,2L+1} around the a
         "line count and per-row tokens, ellipsis position, header names. non-trivial = truncated output, special value, or odd dtype column")
 ASSUMPTIONS = ["an empty vector prints '# empty ...' (it misstates nothing)",
                "for an odd limit n the implementation shows 2*(n//2) rows; lengths in (2*(n//2), n] are not judged",
-               "cell formatting is not re-implemented: each shown row must contain a distinguishing token of its value(s)"]
+               "cell formatting is not re-implemented: each shown row must contain a distinguishing token of its value(s)",
+               "a real number shown in a float vector must read back (float()) as its value within 1e-6, or be printed as True / False"]
 
 NAN, INF = float("nan"), float("inf")
 VARIANT = [0]
